@@ -83,7 +83,18 @@ func (g *c08Gen) polyQP(lq, lp int) ringqp.Poly {
 }
 
 func (g *c08Gen) scale() rlwe.Scale {
-	switch g.ch.Draw("scale-kind", 4) {
+	switch g.ch.Draw("scale-kind", 6) {
+	case 4:
+		// a plaintext modulus beyond the 53 bits of a float64 mantissa (T may be as large as Q[0])
+		bits := 54 + g.ch.Draw("scale-mod-bits", 11)
+		mod := g.rng.Next()>>(64-uint(bits)) | 1<<(uint(bits)-1) | 1
+		return rlwe.NewScaleModT(1+g.rng.Next()%(mod-1), mod)
+	case 5:
+		// a real scale that needs the whole 128-bit mantissa
+		f := new(big.Float).SetPrec(128).SetInt(new(big.Int).SetUint64(g.rng.Next() | 1<<63))
+		f.Mul(f, new(big.Float).SetPrec(128).SetInt(new(big.Int).SetUint64(g.rng.Next()|1)))
+		f.SetMantExp(f, -g.ch.Draw("scale-exp", 100))
+		return rlwe.NewScale(f)
 	case 0:
 		return rlwe.NewScale(1)
 	case 1:
